@@ -1,3 +1,4 @@
+import PbBss.Proofs.EmEquivariance
 import PbBss.Proofs.PosteriorProof
 /-! # C04 — directional models depend only on the direction of each observation vector
 
@@ -196,5 +197,41 @@ example : ∃ (c : ℂ) (y : Fin 2 → ℂ), c ≠ 0 ∧ (∃ d, y d ≠ 0) ∧ 
     have h2 := congrArg Complex.re this
     simp at h2
   · exact outer_normalizeWhere_smul 1 (by simp) _ ⟨0, by simp⟩
+
+
+/-! ## Direction-only dependence on the executable EM model `Em.fit` (`PbBss/Proofs/EmEquivariance.lean`)
+
+`Em.fit` receives the observations the mixture has already normalised, so what is left of a per-observation complex gain is
+a unit-modulus phase.  Generic form: observation sequences a family cannot tell apart give the same fit; instances for the
+complex Watson and the cACG family (externals `get_pca`, the spline, `eigh` arbitrary). -/
+section em_model
+open PbBss.Em PbBss.EmProof
+variable {Θ Y : Type} {K N : Nat}
+
+/-- generic: indistinguishable observations (same log-densities, same auxiliary quantities, same one-component fits)
+give the same `fit`, for every number of iterations -/
+theorem em_fit_congr_obs (tiny : ℝ) (fam : Family Θ Y ℝ) (rule : WeightRule) (tie : Tying N) (eps : ℝ) (s : Fin N → ℝ)
+    (y y' : Fin N → Y) (h : ObsIndist fam y y') (n : Nat) (γ₀ : Fin (K+1) → Fin N → ℝ) :
+    fit tiny fam rule tie eps s y n γ₀ = fit tiny fam rule tie eps s y' n γ₀ :=
+  EmProof.fit_congr_obs tiny h rule tie eps s n γ₀
+
+/-- **cWMM**: per-observation unit-modulus phases do not change the fit -/
+theorem em_watson_fit_phase_invariant {D : Nat} (tiny : ℝ) (pca : Tab D (Tab D ℂ) → Tab D ℂ × ℝ) (kinv lnorm : ℝ → ℝ)
+    (rule : WeightRule) (tie : Tying N) (eps : ℝ) (s : Fin N → ℝ) (y : Fin N → Fin D → ℂ) (u : Fin N → ℂ)
+    (hu : ∀ n, ‖u n‖ = 1) (n : Nat) (γ₀ : Fin (K+1) → Fin N → ℝ) :
+    fit tiny (watsonFamily D pca kinv lnorm) rule tie eps s (fun n d => u n * y n d) n γ₀
+      = fit tiny (watsonFamily D pca kinv lnorm) rule tie eps s y n γ₀ :=
+  EmProof.watson_fit_phase_invariant tiny pca kinv lnorm rule tie eps s y u hu n γ₀
+
+/-- **cACGMM**: the same for the cACG family (every `covariance_norm`) -/
+theorem em_cacg_fit_phase_invariant {D : Nat} (tinyE tiny floor : ℝ)
+    (eigh : Tab (D+1) (Tab (D+1) ℂ) → Tab (D+1) (Tab (D+1) ℂ) × Tab (D+1) ℝ) (nrm : CovNorm)
+    (rule : WeightRule) (tie : Tying N) (eps : ℝ) (s : Fin N → ℝ) (y : Fin N → Fin (D+1) → ℂ) (u : Fin N → ℂ)
+    (hu : ∀ n, ‖u n‖ = 1) (n : Nat) (γ₀ : Fin (K+1) → Fin N → ℝ) :
+    fit tinyE (cacgFamily D eigh nrm floor tiny) rule tie eps s (fun n d => u n * y n d) n γ₀
+      = fit tinyE (cacgFamily D eigh nrm floor tiny) rule tie eps s y n γ₀ :=
+  EmProof.cacg_fit_phase_invariant tinyE eigh nrm floor tiny rule tie eps s y u hu n γ₀
+
+end em_model
 
 end PbBss.C04
